@@ -272,6 +272,29 @@ Section Local.
       injection H as <- <-. eauto.
   Qed.
 
+  (* bytes / bytearray: a node with one LBytes leaf (the member is named by the uuid counter; reading it succeeded by hypothesis) *)
+  Lemma bytes_PV id ba mo c tok : Objs (PBytes id ba mo c tok) -> PV (PBytes id ba mo c tok).
+  Proof.
+    intros Hv st j st1 H Hb. cbn [get_state] in H. destruct (fresh_uuid st) as [u st0] eqn:Hfr.
+    change (if ba then CodecDump.K "BytearrayNode" else CodecDump.K "BytesNode") with (bytes_loader ba) in H. injection H as <- <-.
+    assert (Hn0 : d_next (write_member (uuid_name u) (MBin, tok) st0) = d_next st).
+    { unfold fresh_uuid in Hfr. injection Hfr as <- <-. reflexivity. }
+    rewrite Hn0. split; [lia|].
+    apply (leaf_PV (PBytes id ba mo c tok) _ _ _ _ (bytes_tag ba) (bytes_kind ba) (fun h => h)
+             [Leaf (SOne (GetTree.K "content")) LBytes] (d_next st) (d_next st));
+      try assumption; try reflexivity; try lia.
+    - destruct ba; cbn; tauto.
+    - destruct ba; reflexivity.
+    - destruct ba; reflexivity.
+    - intros x [<-|[]]; eauto.
+    - intros rec sl m n m' H. destruct ba; unfold build, bytes_kind, bytes_tag in H;
+        (destruct (node_init _ _ _ _ _ _ _ _) as [[h m0]|]; [|discriminate H]); cbn [bind] in H;
+        match type of H with context [jindex ?j0 (GetTree.K "file")] =>
+          change (jindex j0 (GetTree.K "file")) with (Ok (A:=json) (JStr (uuid_name u))) in H end;
+        cbn [bind] in H; (destruct (read_member E (JStr (uuid_name u))) as [[]|]; [|discriminate H]); cbn [bind] in H;
+        injection H as <- <-; eauto.
+  Qed.
+
   (* ---- lists of positions built one after the other ---- *)
   Lemma gen_local l : Forall PV l ->
     forall st js st', states_of (fun x s0 => get_state D x s0) l st = Ok (js, st') -> (base <= d_next st)%Z ->
@@ -717,6 +740,7 @@ Section Local.
     apply (pval_ind' (fun v => vok D F Objs v -> PV v)).
     - intros v Hl Hv. destruct v; try discriminate Hl; cbn [vok] in Hv; destruct Hv as [Ho Hv]; try contradiction.
       + apply scalar_PV; assumption.
+      + apply bytes_PV; assumption.
       + apply slice_PV; assumption.
       + apply arr_PV; assumption.
       + apply dtype_PV; assumption.
